@@ -76,7 +76,7 @@ SeqSet(s) == {s[i] : i \in DOMAIN s}
 MiscInit == [probe |-> [e \in EP |-> -1], thr |-> <<>>, cbs |-> <<>>, ackDue |-> [e \in EP |-> -1],
              incn |-> <<>>, fwdMax |-> [e \in EP |-> -1],
              nack |-> [line |-> 0, to |-> -1, set |-> {}, hb |-> FALSE], teardown |-> FALSE, calls |-> <<>>, inj |-> <<>>, dead |-> [e \in EP |-> FALSE], abortRx |-> [e \in EP |-> FALSE], fuzzed |-> FALSE, abortSeen |-> [e \in EP |-> FALSE], shutAt |-> <<>>, shutRet |-> <<>>, closedInc |-> <<>>, wdl |-> <<>>, rdl |-> <<>>, reqs |-> <<>>, gen |-> <<>>, performed |-> {}, genAtRx |-> <<>>, rsGen |-> <<>>,
-             pendReads |-> <<>>, hbCalls |-> <<>>, hbSeen |-> {}, txn |-> [e \in EP |-> 0], wfail |-> {}, rdBase |-> <<>>,
+             pendReads |-> <<>>, hbCalls |-> <<>>, hbSeen |-> {}, txn |-> [e \in EP |-> 0], wfail |-> {}, rdBase |-> <<>>, rdOut |-> <<>>,
              t3h |-> [e \in EP |-> [t |-> -1, iv |-> 0, cum |-> -1, n |-> -1]]]
 
 InitVars ==
@@ -233,7 +233,7 @@ TrRead ==
      IN
        /\ reads' = (k :> Append(Get(reads, k, <<>>), E)) @@ reads
        /\ rs' = IF E.ok /\ ~drift /\ ~deferred THEN (k :> x[1]) @@ rs ELSE rs
-       /\ misc' = IF deferred THEN [misc EXCEPT !.pendReads = Append(@, E)] ELSE misc
+       /\ misc' = IF deferred THEN [misc EXCEPT !.pendReads = Append(@, E), !.rdOut = Upd(@, k, MaxI(0, Get(@, k, 0) - 1))] ELSE misc
        /\ viol' = viol \cup ReadViol(E)
                    \cup (IF drift THEN {V("C01_ReadNext", <<E.ep, E.sid, E.id, specId, E.err>>)} ELSE {})
   /\ step' = IF "async" \in DOMAIN E THEN step ELSE E
@@ -846,6 +846,7 @@ TrApi ==
                [] E.op = "heartbeat" -> [misc EXCEPT !.hbCalls = Append(@, [ep |-> E.ep, srtt |-> IF sn[E.ep] = NoSnap THEN 0 ELSE sn[E.ep].srtt, line |-> l])]
                [] E.op = "setwritedeadline" -> [misc EXCEPT !.wdl = Upd(@, <<E.ep, E.sid>>, E.at)]
                [] E.op = "setreaddeadline" -> [misc EXCEPT !.rdl = Upd(@, <<E.ep, E.sid>>, E.at)]
+               [] E.op = "read-call" -> [misc EXCEPT !.rdOut = Upd(@, <<E.ep, E.sid>>, Get(@, <<E.ep, E.sid>>, 0) + 1)]
                [] E.op = "closestream" /\ E.ok -> [misc EXCEPT !.closedInc = Upd(@, <<E.ep, E.sid>>, Get(misc.incn, <<E.ep, E.sid>>, 0))]
                [] OTHER -> misc
   /\ viol' = viol \cup AckLate(E.t) \cup ApiViol(E)
@@ -886,9 +887,12 @@ TrCb ==
   /\ UNCHANGED <<scen, cfg, msg, order, reads, ch, hi, pkt, rcvd, skipTo, ackCum, ackGap, arw, outst, lastSack, sackEv, sn, step, newData, rs, acc, viol>>
 
 \* the driver lets virtual time pass
+\* C18: a read that is blocked when its stream's read deadline passes returns at the deadline
+ReadOverdue(t) == {V("C18_ReadDeadlineReturns", <<k[1], k[2], misc.rdl[k], t>>) :
+                     k \in {q \in DOMAIN misc.rdOut : misc.rdOut[q] > 0 /\ Get(misc.rdl, q, 0) > 0 /\ t > misc.rdl[q]}}
 TrTick ==
   /\ IsEv("tick")
-  /\ viol' = viol \cup AckLate(E.t)
+  /\ viol' = viol \cup AckLate(E.t) \cup ReadOverdue(E.t)
   /\ step' = E
   /\ l' = l + 1
   /\ UNCHANGED <<scen, cfg, msg, order, reads, ch, hi, pkt, rcvd, skipTo, ackCum, ackGap, arw, outst, lastSack, sackEv, sn, newData, misc, rs, acc>>
